@@ -126,6 +126,16 @@ EXC_HIER = {
     "CycleError": ("ValueError", "Exception"),
     "NotImplementedError": ("RuntimeError", "Exception"),
     "Exception": (),
+    # not subclasses of Exception: `except Exception` does not catch them
+    "KeyboardInterrupt": (),
+    "SystemExit": (),
+    "GeneratorExit": (),
+    "BaseException": (),
+    "RuntimeError": ("Exception",),
+    "RecursionError": ("RuntimeError", "Exception"),
+    "AttributeError": ("Exception",),
+    "NameError": ("Exception",),
+    "ImportError": ("Exception",),
 }
 
 
@@ -1199,7 +1209,9 @@ class Interp:
 
     def st_Raise(self, st, env, mod):
         if st.exc is None:
-            raise OutOfSubset("bare raise")
+            if getattr(self, "handling", None):
+                raise PyRaise(self.handling[-1])  # re-raise the exception being handled
+            raise OutOfSubset("bare raise outside an except block")
         v = self.eval(st.exc, env, mod)
         if isinstance(v, ExcClass):
             v = ExcV(v.name)
@@ -1233,7 +1245,13 @@ class Interp:
                 if any(exc_matches(e.exc, n) for n in names):
                     if h.name:
                         env.set(h.name, e.exc)
-                    self.exec_block(h.body, env, mod)
+                    if not hasattr(self, "handling"):
+                        self.handling = []
+                    self.handling.append(e.exc)
+                    try:
+                        self.exec_block(h.body, env, mod)
+                    finally:
+                        self.handling.pop()
                     return
             raise
         else:
